@@ -6,3 +6,8 @@
 (declare-fun str_index (Str Str) INTSORT)
 (declare-fun str_trimspace (Str) Str)
 (declare-fun str_tolower (Str) Str)
+(declare-fun bytes_str (Int) Str)        ; the content of a byte slice (by backing array), read as a string
+(declare-fun fnv64a (Str) INTSORT)       ; FNV-1a, 64 bit, of a string's bytes
+(declare-fun hkey (Str Pos) Str)         ; the ancestor-path part of a node identity key (instance keyStep)
+(declare-fun itoa_ (INTSORT) Str)        ; strconv.Itoa
+(declare-fun hashkey (Pos) INTSORT)      ; the identity key of a node: FNV-1a of its rendering (instance hashkeyDef)
